@@ -17,6 +17,9 @@ from .tape import Tape
 
 CURRENT: "Sim | None" = None
 REPO = os.environ.get("SFSIM_REPO", "/repo")
+# the tree under test must win over any installed copy, whoever imports `streamflow` first
+if REPO not in sys.path[:1]:
+    sys.path.insert(0, REPO)
 
 
 class Violation(Exception):
